@@ -92,6 +92,65 @@ def scoping_family(r, ledger):
     return stmts, extra
 
 
+def inword_chain_case(r, acc, origin):
+    """Commands inside a word whose candidates include a prefix chain (v1 / v1.0): the longest candidate must be
+    consumed; only the maximal candidates are judged (a shorter one that is a prefix of a longer one is the
+    command analogue of finding KF-D and is recorded, not judged)."""
+    base = r.choice(['v1', 'r2', 'ab'])
+    tags = [base, base + r.choice(['.0', '-rc', 'x']), r.choice(['main', 'dev'])]
+    refs = ['HEAD', r.choice(['v2', 'tip'])]
+    r.shuffle(tags)
+    ledger = ProbeLedger()
+    t0, t1 = '__p 0 "$1" "$2"', '__p 1 "$1" "$2"'
+    ledger.outputs = {t0: tags, t1: refs}
+    ledger.ids = {t0: 0, t1: 1}
+    sep = r.choice(['..', ':', '/'])
+    stmts = [gast.call('cmd', gast.seq(('word', (gast.lit('--from='), gast.cmd(t0))), gast.lit('next'))),
+             gast.call('cmd', gast.seq(gast.lit('diff'), ('word', (gast.cmd(t0), gast.lit(sep), gast.cmd(t1)))))]
+    text, _, _ = gast.print_grammar(stmts)
+    rc, out, err = comp.compile_text(text, 'bash')
+    if rc != 0:
+        acc.count('not_accepted')
+        return
+    longest = max(tags, key=len) if any(t != base and t.startswith(base) for t in tags) else tags[0]
+    other = [t for t in tags if not t.startswith(base)][0]
+    cases = [
+        (['--from=' + longest, ''], {'next'}, None),
+        (['--from=' + other, ''], {'next'}, None),
+        (['diff', longest + sep], {longest + sep + x for x in refs}, ('1', '', longest + sep)),
+        (['diff', longest + sep + refs[0][:1]], {longest + sep + refs[0]}, ('1', refs[0][:1], longest + sep)),
+        (['--from=' + other[:1]], {'--from=' + other}, ('0', other[:1], '--from=')),
+        (['diff', other + sep + refs[1], ''], set(), None),
+    ]
+    queries = [{'words': ['cmd'] + w, 'cword': len(w), 'wb': ''} for (w, e, l) in cases]
+    logdir = bashrun.make_workdir('c17log')
+    try:
+        log = os.path.join(logdir, 'log.tsv')
+        res = bashrun.run_session(out.decode('utf-8'), 'cmd', queries, setup=ledger.setup(log),
+                                  pre_query="printf 'Q\\t{i}\\n' >> \"$CGV_LOG\"")
+        per = parse_log(log)
+    finally:
+        shutil.rmtree(logdir, ignore_errors=True)
+    if res['timed_out'] or res['source_rc'] != 0:
+        acc.inconclusive.append('bash session failed: %s' % res['stderr'][:300])
+        return
+    for qi, ((w, exp, need), ob) in enumerate(zip(cases, res['results'])):
+        if ob is None:
+            continue
+        acc.evals += 1
+        acc.count('inword_prefix_chain_queries')
+        obs = {c[:-1] if c.endswith(' ') else c for c in ob['reply']}
+        inv = per.get(qi, [])
+        if inv:
+            acc.seen((text, w))
+        wit = {'grammar': text, 'shell': 'bash', 'query': {'words': ['cmd'] + w, 'cword': len(w), 'wordbreaks': ''},
+               'stmts': stmts, 'outputs': ledger.outputs, 'ids': ledger.ids, 'origin': origin, 'log': inv[:10]}
+        if obs != exp:
+            acc.violation(dict(wit, sig='candidates-from-commands-differ', expected=sorted(exp), observed=sorted(obs), rc=ob['rc']))
+        elif need is not None and need not in inv:
+            acc.violation(dict(wit, sig='expected-invocation-missing', expected=list(need), observed=inv[:10]))
+
+
 def ledger_cmd(ledger, r, in_word):
     i = len(ledger.outputs)
     return gast.cmd(ledger.factory(r, i, in_word))
@@ -272,6 +331,9 @@ def run_job(job, acc):
     _, s, budget = job
     r = random.Random(s)
     ledger = ProbeLedger()
+    if s % 7 == 3:
+        inword_chain_case(r, acc, 'in-word prefix chain seed=%d' % s)
+        return
     if s % 5 == 0:
         stmts, extra = scoping_family(r, ledger)
         check_grammar(stmts, ledger, r, max(6, budget // 3), acc, 'scoping family seed=%d' % s, extra)
